@@ -1,43 +1,40 @@
-// Shared glue: libFuzzer bytes become the random stream of the SAME proptest strategies the checks use
-// (proptest's pass-through RNG), and the SAME oracle decides. A failure panics with the signature,
-// so the crashing input is the replay artefact; signatures listed as known findings are tolerated.
+// Shared glue: the words of the libFuzzer input select the components of a case through the SAME proptest
+// strategies the checks use (gpa_verif::words), and the SAME oracle decides. A failure panics with its
+// signature, so the crashing input is the replay artefact; signatures listed as known findings are tolerated.
 use gpa_verif::report::{Known, Stats};
 use gpa_verif::runner::Outcome;
-use proptest::strategy::{Strategy, ValueTree};
-use proptest::test_runner::{Config, RngAlgorithm, TestRng, TestRunner};
+pub use gpa_verif::words::Words;
 
-pub fn drive<S: Strategy>(prop: &str, data: &[u8], strategy: S, eval: impl Fn(&S::Value, &mut Stats) -> Outcome)
-where
-    S::Value: std::fmt::Debug,
-{
-    if data.len() < 8 {
-        return;
-    }
-    // rand's uniform sampling rejects some values and would spin forever on the zeros that the
-    // pass-through RNG yields once the input is used up: append a deterministic pseudo-random tail
-    let mut buf = data.to_vec();
-    let mut x: u64 = 0x9E37_79B9_7F4A_7C15 ^ (data.len() as u64);
-    for b in data.iter().take(64) {
-        x = (x ^ *b as u64).wrapping_mul(0x1000_0000_01B3);
-    }
-    for _ in 0..4096 {
-        x ^= x << 13;
-        x ^= x >> 7;
-        x ^= x << 17;
-        buf.extend_from_slice(&x.to_le_bytes());
-    }
-    let rng = TestRng::from_seed(RngAlgorithm::PassThrough, &buf);
-    let mut runner = TestRunner::new_with_rng(Config::default(), rng);
-    let tree = match strategy.new_tree(&mut runner) {
-        Ok(t) => t,
-        Err(_) => return,
-    };
-    let case = tree.current();
+// The agent's logger parses the process arguments with clap (and exits on libFuzzer's flags). libFuzzer has
+// copied its flags by the time the first input runs, so the argument vector is cut after argv[0] then
+// (std::env::args stops at the first NULL entry).
+static ARGC: std::sync::atomic::AtomicI32 = std::sync::atomic::AtomicI32::new(0);
+static ARGV: std::sync::atomic::AtomicPtr<*mut std::ffi::c_char> = std::sync::atomic::AtomicPtr::new(std::ptr::null_mut());
+#[used]
+#[link_section = ".init_array"]
+static SAVE_ARGV: extern "C" fn(i32, *mut *mut std::ffi::c_char, *mut *mut std::ffi::c_char) = save_argv;
+extern "C" fn save_argv(argc: i32, argv: *mut *mut std::ffi::c_char, _envp: *mut *mut std::ffi::c_char) {
+    ARGC.store(argc, std::sync::atomic::Ordering::SeqCst);
+    ARGV.store(argv, std::sync::atomic::Ordering::SeqCst);
+}
+fn hide_args() {
+    static ONCE: std::sync::Once = std::sync::Once::new();
+    ONCE.call_once(|| {
+        let argv = ARGV.load(std::sync::atomic::Ordering::SeqCst);
+        if !argv.is_null() && ARGC.load(std::sync::atomic::Ordering::SeqCst) > 1 {
+            unsafe { *argv.add(1) = std::ptr::null_mut() };
+        }
+    });
+}
+
+pub fn judge<C: std::fmt::Debug>(prop: &str, case: C, eval: impl Fn(&C, &mut Stats) -> Outcome) {
+    hide_args();
     let mut stats = Stats::new();
     let out = gpa_verif::runner::guarded(|| eval(&case, &mut stats));
     if let Outcome::Fail { signature, detail } = out {
         let known = Known::load(prop);
         if !known.is_known(&signature) {
+            eprintln!("FUZZ-VIOLATION property={} signature={}", prop, signature);
             panic!("VIOLATION property={} signature={} detail={} case={:?}", prop, signature, detail, case);
         }
     }
